@@ -31,6 +31,7 @@ TRANSPARENT = [
     (r"core::slice::<impl \[T\]>::(iter|iter_mut|as_ref)$", None),
     (r"alloc::vec::Vec::<T>::(iter|as_slice)$", None),
     (r"core::cell::RefCell::<T>::(borrow|borrow_mut)$", None),
+    (r"OccupiedEntry::<[^:]*>::(get|get_mut|into_mut|key)$", [0]),
 ]
 _TRANSPARENT_RX = [(re.compile(p), idx) for p, idx in TRANSPARENT]
 
@@ -75,10 +76,16 @@ class Origin:
         return "%s:%s" % (self.kind, self.info)
 
 
+def _const_info(c):
+    if "promoted" in c:
+        return "promoted[%s]" % c["promoted"]
+    return c.get("s") or (c.get("fn") or {}).get("path")
+
+
 def origins_of_operand(body, op, extra_transparent=(), through_agg=True, stop_at=None):
     c = op.get("c")
     if c is not None:
-        return {Origin("const", None, c.get("s") or (c.get("fn") or {}).get("path"))}
+        return {Origin("const", None, _const_info(c))}
     p = op_place(op)
     if p is None:
         return {Origin("unknown", None, str(op))}
@@ -112,7 +119,7 @@ def origins_of_place(body, place, extra_transparent=(), through_agg=True, stop_a
                     o = rv["op"]
                     c = o.get("c")
                     if c is not None:
-                        out.add(Origin("const", None, c.get("s") or (c.get("fn") or {}).get("path")))
+                        out.add(Origin("const", None, _const_info(c)))
                     else:
                         pl = op_place(o)
                         if pl is not None:
@@ -302,6 +309,7 @@ def guarded_by(body, target_bb, pred):
 LOCK_ACQUIRE = re.compile(
     r"tokio::sync::(rwlock::RwLock::<T>::(read|write|read_owned|write_owned|try_read|try_write)|mutex::Mutex::<T>::(lock|try_lock|lock_owned))$"
     r"|lock_api::(rwlock::RwLock|mutex::Mutex)::<R, T>::(read|write|lock|upgradable_read|try_read|try_write|try_lock)$"
+    r"|qbice_storage::sharded::Sharded::<T>::(read_shard|write_shard)$"
     r"|core::cell::RefCell::<T>::(borrow|borrow_mut)$")
 
 
@@ -524,6 +532,9 @@ class Desc:
                 self.calls.add(segs[-1] if segs else "")
             elif o.kind == "const":
                 self.consts.add(str(o.info))
+                m = re.match(r"promoted\[(\d+)\]$", str(o.info))
+                if m and body.prog is not None:
+                    self.aggs |= body.prog.promoted_aggs(body.key, int(m.group(1)))
             elif o.kind == "param":
                 self.params.add(str(o.info))
             elif o.kind == "agg":
@@ -615,7 +626,7 @@ def dominated_by_variant(body, bb, adt_suffix, variants, place_pred=None):
         # all paths to bb go through one of the good edges of this switch
         bad_edges = [(sb, tb) for tb, v, c in lst if tb not in good_targets]
         good_edges = [(sb, tb) for tb in good_targets]
-        if bb in body.reachable([0], removed_edges=good_edges):
+        if not body.unreachable_without(good_edges, bb):
             continue
         return True
     return False
